@@ -56,6 +56,10 @@ class RCounter(persistent.Persistent):
 
     def _p_resolveConflict(self, old, committed, new):
         RESOLVE_LOG.append((old, committed, new))
+        if new.get('x_raise'):
+            # this one resolution fails, with an exception type chosen by the generator
+            import builtins
+            raise getattr(builtins, new['x_raise'])('the resolver fails for this state')
         r = dict(new)
         r['n'] = committed.get('n', 0) + new.get('n', 0) - old.get('n', 0)
         for k, v in committed.items():
